@@ -94,6 +94,11 @@ def unit_constant(e_unit: str, t_unit: str, l_unit: str):
     return kin.consts()["m_n"] / 2 / f
 
 
+# The float32 underflow of the unit constant (finding C05.f32_unit_constant_underflow) was fixed in
+# /repo (0b0596f); the region is therefore no longer excluded from the main facets.
+EXCLUDE_F32_UNDERFLOW = False
+
+
 def in_f32_underflow_region(mode, dt, u) -> bool:
     """Energy operand single precision and m_n/2 in its units below the float32 normal range."""
     if dt["E"] != "float32":
@@ -321,7 +326,7 @@ def _setup(draw, mode=None):
         dt = dict.fromkeys(OPS, "float64" if kind == "f64" else "float32")
     u = {"tof": draw(S_TUNIT), "L1": draw(S_LUNIT), "L2": draw(S_LUNIT), "E": draw(S_EUNIT)}
     moved = False
-    if in_f32_underflow_region(mode, dt, u):
+    if EXCLUDE_F32_UNDERFLOW and in_f32_underflow_region(mode, dt, u):
         u["tof"] = "us"
         moved = True
     return {"mode": mode, "dt": dt, "u": u, "moved": moved}
@@ -470,7 +475,7 @@ def conservation_cases(draw):
     s = _setup(draw, mode="direct")
     dt, u = s["dt"], s["u"]
     u_Ef = draw(S_EUNIT)
-    if in_f32_underflow_region("indirect", dt, {**u, "E": u_Ef}):
+    if EXCLUDE_F32_UNDERFLOW and in_f32_underflow_region("indirect", dt, {**u, "E": u_Ef}):
         # the same exclusion for the indirect call (its fixed leg is L2)
         u["tof"] = "us"
         s["moved"] = True
